@@ -7,7 +7,7 @@ import ast
 from ..cfg import build_cfg, calls_in, node_calls
 from ..core import Ctx, property_info, rule, share
 from ..model import AnalysisError, FuncInfo, walk_no_nested
-from ..q import A, L, X, leaf_conditions, reach_env, reach_table, cmp_atom, leaves_at, node_containing, alternatives, call_name_of, control_deps, dep_texts, entry_conditions, expand, expand_at, flows, func_text, path_conditions, tests_like, is_self_attr, kwarg, stores, unparse
+from ..q import A, L, X, family, leaf_conditions, reach_env, reach_table, cmp_atom, leaves_at, node_containing, alternatives, call_name_of, control_deps, dep_texts, entry_conditions, expand, expand_at, flows, func_text, path_conditions, tests_like, is_self_attr, kwarg, stores, unparse
 from .c10 import flag_liveness_and_overrides
 from .c15 import shape_validation
 
@@ -247,7 +247,7 @@ def exact_type_choice_lookup(ctx: Ctx) -> None:
     ctx.ob("find_primitive_choice returns a choice when type(value) (or of the first token) is a member of element.types", ok, at=fp, construct="primitive type membership", msg="exact type shortcut changed")
     skip_ok = bool(rets) and all({"_.any_type", "_.clazz"} <= dep_texts(fp, r, False) for r in rets)
     tok_ok = bool(rets) and all(any(("_.tokens" in t and "!=" in t and not pol) or ("_.tokens" in t and "==" in t and "!=" not in t and pol) for t, pol, _ in control_deps(fp, r)) for r in rets)
-    ctx.ob("find_primitive_choice skips any-type / model / token-mismatched choices and falls back to converter.test", skip_ok and tok_ok and bool(_calls_named(fp.node, "test")), at=fp,
+    ctx.ob("find_primitive_choice skips any-type / model / token-mismatched choices and falls back to converter.test", skip_ok and tok_ok and any(_calls_named(f_.node, "test") for f_ in family(ctx.repo, fp)), at=fp,
            construct="primitive fallback", msg="choice filtering changed")
     fc = ctx.repo.func(f"{EL}:XmlVar.find_clazz_choice")
     g = build_cfg(fc.node)
@@ -278,12 +278,14 @@ def nillable_choice_only_for_none_or_empty_tokens(ctx: Ctx) -> None:
     fv = ctx.repo.func(f"{EL}:XmlVar.find_value_choice")
     g = build_cfg(fv.node)
     nil = [n for n in g.stmts() if any(call_name_of(c) == "find_nillable_choice" for c in node_calls(n))]
-    none_t = [t for t in tests_like(fv, "_ is None") if any(isinstance(x, ast.Name) and x.id == "value" for x in ast.walk(t.ast))]
-    tok_t = tests_like(fv, "collections.is_array(_)")
-    ok = len(nil) == 1 and len(none_t) >= 1 and bool(tok_t)
+    ok = len(nil) == 1
     if ok:
-        blocked = [(t.id, m, lab) for t in none_t + tok_t for m, lab in g.succ[t.id] if lab == "true"]
-        ok = nil[0].id not in g.reachable([g.entry], blocked_edges=blocked)
+        tab = reach_table(fv, nil[0], [{"value is None": True}, {"collections.is_array(value)": True}], raw=True)
+        if tab is None:
+            ctx.abstain("nillable dispatch of find_value_choice", at=fv)
+            return
+        # (truthiness of the value stays open: the lookup must not become reachable through it alone)
+        ok = not tab[(False, False)] and tab[(True, True)] and tab[(True, False)]
     ctx.ob("find_value_choice: the nillable lookup is unreachable for a value that is neither None nor a token list", ok, at=fv, construct="nillable dispatch",
            msg="falsy primitives (0, 0.0, False, '') are sent to the nillable choice: JSON 0 in a compound field fails to bind or is bound to another choice")
 
